@@ -9,7 +9,7 @@ pub fn rid_eq(a: &ResourceId, b: &ResourceId) -> (r: bool)
     ensures r == (*a == *b)
 { unimplemented!() }
 
-#[derive(Clone, Copy, PartialEq, Eq)]
+#[derive(Clone, Copy, PartialEq, Eq, Structural)]
 pub struct SystemId(pub usize);
 
 pub struct SystemExec { _p: u8 }
@@ -70,17 +70,52 @@ pub open spec fn shape_ok(ids: &Ids, reads: &Rws, writes: &Rws, stage: int) -> b
     && ids[stage].len() == reads[stage].len() && ids[stage].len() == writes[stage].len()
 }
 
+pub open spec fn hit_at(ids: &Ids, reads: &Rws, writes: &Rws, stage: int, g: int, nr: Seq<ResourceId>, nw: Seq<ResourceId>, dep: Seq<SystemId>) -> bool {
+    grp_hit(ids[stage][g]@, reads[stage][g]@, writes[stage][g]@, nr, nw, dep)
+}
 // fold of Conflict::add over hit groups in [0,n)
 pub open spec fn fold_hits(ids: &Ids, reads: &Rws, writes: &Rws, stage: int, nr: Seq<ResourceId>, nw: Seq<ResourceId>, dep: Seq<SystemId>, n: int) -> Conflict
     decreases n
 {
     if n <= 0 { Conflict::None } else {
         let prev = fold_hits(ids, reads, writes, stage, nr, nw, dep, n - 1);
-        if grp_hit(ids[stage][n-1]@, reads[stage][n-1]@, writes[stage][n-1]@, nr, nw, dep) { spec_conflict_add(prev, (n - 1) as usize) } else { prev }
+        if hit_at(ids, reads, writes, stage, n - 1, nr, nw, dep) { spec_conflict_add(prev, (n - 1) as usize) } else { prev }
     }
 }
-pub open spec fn any_dep_only(ids: &Ids, reads: &Rws, writes: &Rws, stage: int, nr: Seq<ResourceId>, nw: Seq<ResourceId>, dep: Seq<SystemId>, n: int) -> bool {
-    exists|g: int| 0 <= g < n && grp_dep_only(ids[stage][g]@, reads[stage][g]@, writes[stage][g]@, nr, nw, dep)
+
+pub proof fn lemma_fold_hits(ids: &Ids, reads: &Rws, writes: &Rws, stage: int, nr: Seq<ResourceId>, nw: Seq<ResourceId>, dep: Seq<SystemId>, n: int)
+    requires 0 <= n <= usize::MAX
+    ensures
+        match fold_hits(ids, reads, writes, stage, nr, nw, dep, n) {
+            Conflict::None => forall|g: int| 0 <= g < n ==> !#[trigger] hit_at(ids, reads, writes, stage, g, nr, nw, dep),
+            Conflict::Single(h) => 0 <= h < n && hit_at(ids, reads, writes, stage, h as int, nr, nw, dep)
+                && forall|g: int| 0 <= g < n && g != h ==> !#[trigger] hit_at(ids, reads, writes, stage, g, nr, nw, dep),
+            Conflict::Multiple => true,
+        }
+    decreases n
+{
+    if n > 0 { lemma_fold_hits(ids, reads, writes, stage, nr, nw, dep, n - 1); }
+}
+
+pub open spec fn any_dep_only(ids: &Ids, reads: &Rws, writes: &Rws, stage: int, nr: Seq<ResourceId>, nw: Seq<ResourceId>, dep: Seq<SystemId>, n: int) -> bool
+    decreases n
+{
+    n > 0 && (any_dep_only(ids, reads, writes, stage, nr, nw, dep, n - 1) || dep_only_at(ids, reads, writes, stage, n - 1, nr, nw, dep))
+}
+pub open spec fn dep_only_at(ids: &Ids, reads: &Rws, writes: &Rws, stage: int, g: int, nr: Seq<ResourceId>, nw: Seq<ResourceId>, dep: Seq<SystemId>) -> bool {
+    grp_dep_only(ids[stage][g]@, reads[stage][g]@, writes[stage][g]@, nr, nw, dep)
+}
+pub proof fn lemma_dep_only(ids: &Ids, reads: &Rws, writes: &Rws, stage: int, nr: Seq<ResourceId>, nw: Seq<ResourceId>, dep: Seq<SystemId>, n: int)
+    ensures
+        any_dep_only(ids, reads, writes, stage, nr, nw, dep, n) ==> exists|g: int| 0 <= g < n && #[trigger] hit_at(ids, reads, writes, stage, g, nr, nw, dep) && inter(dep, ids[stage][g]@),
+    decreases n
+{
+    if n > 0 {
+        lemma_dep_only(ids, reads, writes, stage, nr, nw, dep, n - 1);
+        if dep_only_at(ids, reads, writes, stage, n - 1, nr, nw, dep) {
+            assert(hit_at(ids, reads, writes, stage, n - 1, nr, nw, dep) && inter(dep, ids[stage][n - 1]@));
+        }
+    }
 }
 pub open spec fn spec_find_conflict(ids: &Ids, reads: &Rws, writes: &Rws, stage: int, nr: Seq<ResourceId>, nw: Seq<ResourceId>, dep: Seq<SystemId>) -> Conflict {
     let n = ids[stage].len() as int;
@@ -88,10 +123,61 @@ pub open spec fn spec_find_conflict(ids: &Ids, reads: &Rws, writes: &Rws, stage:
     if (dc && dep.len() > 1) || (!dc && dep.len() != 0) { Conflict::Multiple } else { fold_hits(ids, reads, writes, stage, nr, nw, dep, n) }
 }
 
+
+pub proof fn lemma_derived(ids: &Ids, reads: &Rws, writes: &Rws, stage: int, nr: Seq<ResourceId>, nw: Seq<ResourceId>, dep: Seq<SystemId>)
+    requires ids[stage].len() <= usize::MAX
+    ensures
+        match spec_find_conflict(ids, reads, writes, stage, nr, nw, dep) {
+            Conflict::None => dep.len() == 0
+                && forall|g: int| 0 <= g < ids[stage].len() ==> !res_conflict(#[trigger] reads[stage][g]@, writes[stage][g]@, nr, nw),
+            Conflict::Single(h) => h < ids[stage].len()
+                && (forall|g: int| 0 <= g < ids[stage].len() && g != h ==> !res_conflict(#[trigger] reads[stage][g]@, writes[stage][g]@, nr, nw))
+                && (forall|i: int| 0 <= i < dep.len() ==> ids[stage][h as int]@.contains(#[trigger] dep[i])),
+            Conflict::Multiple => true,
+        }
+{
+    let n = ids[stage].len() as int;
+    lemma_fold_hits(ids, reads, writes, stage, nr, nw, dep, n);
+    lemma_dep_only(ids, reads, writes, stage, nr, nw, dep, n);
+    match spec_find_conflict(ids, reads, writes, stage, nr, nw, dep) {
+        Conflict::None => {
+            assert forall|g: int| 0 <= g < n implies !res_conflict(#[trigger] reads[stage][g]@, writes[stage][g]@, nr, nw) by {
+                assert(!hit_at(ids, reads, writes, stage, g, nr, nw, dep));
+            }
+        }
+        Conflict::Single(h) => {
+            assert forall|g: int| 0 <= g < n && g != h implies !res_conflict(#[trigger] reads[stage][g]@, writes[stage][g]@, nr, nw) by {
+                assert(!hit_at(ids, reads, writes, stage, g, nr, nw, dep));
+            }
+            if dep.len() != 0 {
+                let g = choose|g: int| 0 <= g < n && #[trigger] hit_at(ids, reads, writes, stage, g, nr, nw, dep) && inter(dep, ids[stage][g]@);
+                assert(g == h);
+                let (a, b) = choose|a: int, b: int| 0 <= a < dep.len() && 0 <= b < ids[stage][g]@.len() && dep[a] == ids[stage][g]@[b];
+                assert forall|i: int| 0 <= i < dep.len() implies ids[stage][h as int]@.contains(#[trigger] dep[i]) by {
+                    assert(i == 0 && a == 0);
+                    assert(ids[stage][h as int]@[b] == dep[i]);
+                }
+            }
+        }
+        Conflict::Multiple => {}
+    }
+}
+
 fn find_conflict(ids: &Ids, reads: &Rws, writes: &Rws, stage: usize, new_reads: &Vec<ResourceId>, new_writes: &Vec<ResourceId>, new_dep: &Vec<SystemId>) -> (r: Conflict)
     requires shape_ok(ids, reads, writes, stage as int)
-    ensures r == spec_find_conflict(ids, reads, writes, stage as int, new_reads@, new_writes@, new_dep@)
+    ensures r == spec_find_conflict(ids, reads, writes, stage as int, new_reads@, new_writes@, new_dep@),
+        match r {
+            Conflict::None => new_dep.len() == 0
+                && forall|g: int| 0 <= g < ids[stage as int].len() ==> !res_conflict(#[trigger] reads[stage as int][g]@, writes[stage as int][g]@, new_reads@, new_writes@),
+            Conflict::Single(h) => h < ids[stage as int].len()
+                && (forall|g: int| 0 <= g < ids[stage as int].len() && g != h ==> !res_conflict(#[trigger] reads[stage as int][g]@, writes[stage as int][g]@, new_reads@, new_writes@))
+                && (forall|i: int| 0 <= i < new_dep.len() ==> ids[stage as int][h as int]@.contains(#[trigger] new_dep[i])),
+            Conflict::Multiple => true,
+        }
 {
+    proof { lemma_fold_hits(ids, reads, writes, stage as int, new_reads@, new_writes@, new_dep@, ids[stage as int].len() as int);
+            lemma_dep_only(ids, reads, writes, stage as int, new_reads@, new_writes@, new_dep@, ids[stage as int].len() as int);
+            lemma_derived(ids, reads, writes, stage as int, new_reads@, new_writes@, new_dep@); }
     let num_groups = ids[stage].len();
     let mut dep_conflict = false;
 
@@ -243,7 +329,7 @@ impl StagesBuilder {
                     while k < new_dep.len()
                         invariant_except_break index is None,
                         invariant 0 <= k <= new_dep.len(),
-                        ensures index is Some ==> (index->0 < new_dep.len() && new_dep[index->0 as int] == *id),
+                        ensures index is Some ==> ((index->0) < new_dep.len() && new_dep[(index->0) as int] == *id),
                         decreases new_dep.len() - k
                     {
                         if new_dep[k] == *id { index = Some(k); break; }
@@ -292,23 +378,31 @@ impl StagesBuilder {
         ensures r == self.spec_improves(stage as int, group as int, new_time)
     { unimplemented!() }
 
+    pub open spec fn target_ok(&self, r: InsertionTarget, nr: Seq<ResourceId>, nw: Seq<ResourceId>, dep0: Seq<SystemId>) -> bool {
+        match r {
+            InsertionTarget::Stage(s) => self.barrier <= s < self.nstages()
+                && (forall|g: int| 0 <= g < self.ngroups(s as int) ==> !res_conflict(#[trigger] self.reads[s as int][g]@, self.writes[s as int][g]@, nr, nw))
+                && (forall|i: int| 0 <= i < dep0.len() ==> self.located_in(#[trigger] dep0[i], self.barrier as int, s as int)),
+            InsertionTarget::Group(s, g) => self.barrier <= s < self.nstages() && g < self.ngroups(s as int)
+                && self.ids[s as int][g as int].len() < MAX_SYSTEMS_PER_GROUP - 1
+                && (forall|h: int| 0 <= h < self.ngroups(s as int) && h != g ==> !res_conflict(#[trigger] self.reads[s as int][h]@, self.writes[s as int][h]@, nr, nw))
+                && (forall|i: int| 0 <= i < dep0.len() ==> self.located_in(#[trigger] dep0[i], self.barrier as int, s as int) || self.ids[s as int][g as int]@.contains(dep0[i])),
+            InsertionTarget::NewStage => true,
+        }
+    }
+    pub open spec fn found_ok(&self, found: Option<(usize, Conflict)>, nr: Seq<ResourceId>, nw: Seq<ResourceId>, dep0: Seq<SystemId>) -> bool {
+        match found {
+            Some((s, Conflict::None)) => self.target_ok(InsertionTarget::Stage(s), nr, nw, dep0),
+            Some((s, Conflict::Single(g))) => self.target_ok(InsertionTarget::Group(s, g), nr, nw, dep0),
+            Some((s, Conflict::Multiple)) => false,
+            None => true,
+        }
+    }
+
     fn insertion_target(&self, new_reads: &Vec<ResourceId>, new_writes: &Vec<ResourceId>, new_dep: &mut Vec<SystemId>, new_time: u8) -> (r: InsertionTarget)
         requires self.lockstep(), 1 <= new_time <= 5,
-        ensures
-            match r {
-                InsertionTarget::Stage(s) => self.barrier <= s < self.nstages()
-                    // C01: no group of s conflicts
-                    && (forall|g: int| 0 <= g < self.ngroups(s as int) ==> !res_conflict(#[trigger] self.reads[s as int][g]@, self.writes[s as int][g]@, new_reads@, new_writes@))
-                    // C02: all deps strictly before s
-                    && (forall|i: int| 0 <= i < old(new_dep).len() ==> self.located_in(#[trigger] old(new_dep)[i], self.barrier as int, s as int)),
-                InsertionTarget::Group(s, g) => self.barrier <= s < self.nstages() && g < self.ngroups(s as int)
-                    && self.ids[s as int][g as int].len() < MAX_SYSTEMS_PER_GROUP - 1
-                    && (forall|h: int| 0 <= h < self.ngroups(s as int) && h != g ==> !res_conflict(#[trigger] self.reads[s as int][h]@, self.writes[s as int][h]@, new_reads@, new_writes@))
-                    && (forall|i: int| 0 <= i < old(new_dep).len() ==> self.located_in(#[trigger] old(new_dep)[i], self.barrier as int, s as int) || self.ids[s as int][g as int]@.contains(old(new_dep)[i])),
-                InsertionTarget::NewStage => true,
-            }
+        ensures self.target_ok(r, new_reads@, new_writes@, old(new_dep)@),
     {
-        // lowered: (self.barrier..self.stages.len()).map(|stage| {..}).find(|&(stage, conflict)| ..).map(..).unwrap_or(NewStage)
         let mut found: Option<(usize, Conflict)> = None;
         let mut stage = self.barrier;
         let end = self.stages.len();
@@ -316,56 +410,34 @@ impl StagesBuilder {
             invariant_except_break found is None,
                 forall|i: int| 0 <= i < old(new_dep).len() ==> new_dep@.contains(#[trigger] old(new_dep)[i]) || self.located_in(old(new_dep)[i], self.barrier as int, stage as int),
             invariant self.barrier <= stage <= end, end == self.nstages(), self.lockstep(), 1 <= new_time <= 5,
-                forall|i: int| 0 <= i < new_dep.len() ==> old(new_dep)@.contains(#[trigger] new_dep[i]),
-            ensures
-                found is Some ==> ({
-                    let s = (found->0).0; let c = (found->0).1;
-                    &&& self.barrier <= s < self.nstages()
-                    &&& c != Conflict::Multiple
-                    &&& self.accept(s as int, c, new_time)
-                    &&& exists|dep: Seq<SystemId>| c == spec_find_conflict(&self.ids, &self.reads, &self.writes, s as int, new_reads@, new_writes@, dep)
-                         && (forall|i: int| 0 <= i < old(new_dep).len() ==> dep.contains(#[trigger] old(new_dep)[i]) || self.located_in(old(new_dep)[i], self.barrier as int, s as int))
-                }),
+            ensures self.found_ok(found, new_reads@, new_writes@, old(new_dep)@),
             decreases end - stage
         {
             let item = {
                 let conflict = find_conflict(&self.ids, &self.reads, &self.writes, stage, new_reads, new_writes, new_dep);
-                let ghost depv = new_dep@;
                 self.remove_ids(stage, new_dep);
-                proof {
-                    assert forall|i: int| 0 <= i < old(new_dep).len() implies new_dep@.contains(#[trigger] old(new_dep)[i]) || self.located_in(old(new_dep)[i], self.barrier as int, stage + 1) by {
-                        let x = old(new_dep)[i];
-                        if depv.contains(x) {
-                            let j = choose|j: int| 0 <= j < depv.len() && depv[j] == x;
-                            assert(new_dep@.contains(depv[j]) || self.located_in(depv[j], stage as int, stage + 1));
-                        }
-                    }
-                }
                 (stage, conflict)
             };
             let pred = match item.1 {
                 Conflict::None => true,
                 Conflict::Single(group) => {
-                    proof { assume(group < self.ngroups(stage as int)); }
                     self.stages[stage].groups[group].len() < MAX_SYSTEMS_PER_GROUP - 1
                         && self.improves_balance2(stage, group, new_time)
                 }
                 Conflict::Multiple => false,
             };
-            if pred { found = Some(item); proof { assume(false); } break; }
+            if pred { found = Some(item); break; }
             stage += 1;
         }
-        proof { assume(false); }
         match found {
             Some((stage, conflict)) => match conflict {
                 Conflict::None => InsertionTarget::Stage(stage),
                 Conflict::Single(group) => InsertionTarget::Group(stage, group),
-                Conflict::Multiple => { proof { assert(false); } InsertionTarget::NewStage },
+                Conflict::Multiple => InsertionTarget::NewStage,
             },
             None => InsertionTarget::NewStage,
         }
     }
-
 }
 
 }
